@@ -111,6 +111,51 @@ send_config!(q13_send_channel_config_r32, 32);
 send_config!(q13_send_channel_config_r4095, 4095);
 send_config!(q13_send_channel_config_r4096, 4096);
 
+// "sending beyond the count is an error": the record-count check at the top of GatewaySender::send,
+// observed through the first poll of the real future over a real OrderingSender.
+harness! {
+    #[kani::unwind(10)]
+    fn x13_send_beyond_total_is_an_error() {
+        use std::future::Future;
+        use std::pin::pin;
+        use std::task::{Context, Poll, Waker};
+        use crate::ff::Fp31;
+        use crate::helpers::{ChannelId, Role};
+        use crate::protocol::{Gate, RecordId};
+        let total: usize = kani::any();
+        kani::assume(total >= 1 && total <= 4);
+        let one = NonZeroUsize::new(1).unwrap();
+        let tx = OrderingSender::new(NonZeroUsize::new(4).unwrap(), one, one);
+        let sender = GatewaySender::<Role>::new(
+            ChannelId { peer: Role::H2, gate: Gate::default() },
+            tx,
+            TotalRecords::Specified(NonZeroUsize::new(total).unwrap()),
+        );
+        let r: usize = kani::any();
+        // the in-range branch goes on into OrderingSender::send (8 mutex shards, wakers): > 300 s;
+        // this harness therefore covers exactly the out-of-range half of the check
+        kani::assume(r >= total && r <= 8);
+        let msg = crate::verif_kani::c08_prime::mk31(3);
+        let waker = Waker::noop();
+        let mut cx = Context::from_waker(&waker);
+        let mut fut = pin!(sender.send::<Fp31, Fp31>(RecordId::from(r), msg));
+        match fut.as_mut().poll(&mut cx) {
+            Poll::Ready(Err(e)) => {
+                assert!(r >= total, "in-range records are not refused");
+                match &e {
+                    Error::TooManyRecords { record_id, .. } => assert!(usize::from(*record_id) == r),
+                    _ => assert!(false, "the error names the offending record"),
+                }
+                std::mem::forget(e);
+            }
+            Poll::Ready(Ok(())) => assert!(r < total && r == 0, "only record 0 can complete at once: records are sent in order"),
+            Poll::Pending => assert!(r < total && r > 0, "a record beyond the declared total is never queued"),
+        }
+        kani::cover!(r == total);
+        kani::cover!(r == 0);
+    }
+}
+
 // native replay slot (cargo kani playback): the driver points IPA_VERIF_REPLAY_DIR at a directory
 // holding one file per hook; the generated test calls the harness by its path relative to this module.
 #[cfg(test)]
